@@ -301,7 +301,7 @@ class WFGen(F.Gen):
         extra = ([[{'s': 'call', 'name': 'ip1', 'args': [V('t2')]}]] if with_ip else []) + [
                  [raw('!$loki inline'), {'s': 'call', 'name': 'h2', 'args': [V('t1'), op('sum', V('n'), N(1))]}],
                  [{'s': 'call', 'name': 'h1', 'args': [el('ia', N(0)), N(2), V('t2')]}],          # sequence association
-                 [raw('!$loki outline name(outl1) in(n, m) inout(k)' if rng.random() < 0.5 else '!$loki outline'),
+                 [raw('!$loki outline name(outl1) in(n,m) inout(k)' if rng.random() < 0.5 else '!$loki outline'),
                   assign(V('t2'), op('sum', V('n'), V('m'))), assign(V('k'), call('mod', op('sum', V('k'), V('t2')), N(17))),
                   raw('!$loki end outline')],
                  [raw('!$loki loop-unroll'),
@@ -314,7 +314,12 @@ class WFGen(F.Gen):
                      assign(el('ra', V('i')), op('prod', el('ra', V('i')), F.R(1, 2))), raw('!$loki loop-fission'),
                      assign(el('ia', V('i')), op('sum', el('ia', V('i')), V('m')))]}],
                  [{'s': 'if', 'conds': [cmp_('>', N(1), N(2))], 'bodies': [[assign(V('k'), N(99))]], 'els': [assign(V('t1'), op('sum', V('t1'), N(1)))]}],
-                 [assign(V('t2'), op('sum', N(2), N(3))), assign(V('k'), op('sum', V('k'), V('t2')))]]
+                 [assign(V('t2'), op('sum', N(2), N(3))), assign(V('k'), op('sum', V('k'), V('t2')))],
+                 [{'s': 'assoc', 'names': ['za', 'zb'], 'targets': [V('k'), el('ia', N(2))], 'body': [
+                     assign(V('za'), op('sum', V('zb'), N(1))),
+                     {'s': 'assoc', 'names': ['zc'], 'targets': [V('t2')], 'body': [assign(V('zc'), op('sum', V('za'), V('n')))]}]}],
+                 [raw('!$loki region-hoist target'), assign(V('t1'), op('sum', V('t1'), N(2))),
+                  raw('!$loki region-hoist'), assign(V('t2'), op('sum', V('m'), N(4))), raw('!$loki end region-hoist')]]
         rng.shuffle(extra)
         for block in extra[:rng.randint(5, len(extra))]:
             pos = rng.randint(5, len(body))
@@ -455,7 +460,8 @@ def registry():
             r.parent = P.kmod
     reg('outline_pragma_regions')(lambda P: (need(_has_raw(P.prog, '!$loki outline'), 'no region'),
                                              place(P, outline_pragma_regions(P.kernel))))
-    reg('extract_internal_procedures')(lambda P: place(P, extract_internal_procedures(P.kernel)))
+    reg('extract_internal_procedures')(lambda P: (need(any(u['host'] for u in P.prog['units']), 'no internal procedure'),
+                                                  place(P, extract_internal_procedures(P.kernel))))
     reg('ExtractTransformation:both')(lambda P: ExtractTransformation(extract_internals=True, outline_regions=True).apply(P.kmod, role='kernel'))
     reg('ExtractTransformation:outline')(lambda P: (need(_has_raw(P.prog, '!$loki outline'), 'no region'),
                                                     ExtractTransformation(extract_internals=False, outline_regions=True).apply(P.kmod, role='kernel')))
